@@ -7,7 +7,7 @@ ID = 'C13'
 LEVEL = 'other'
 TARGETS = ['selfies/decoder.py::_tokenize_selfies',
            'selfies/utils/selfies_utils.py::split_selfies']
-ASSUMPTIONS = ['_tokenize_selfies is verified for compatible=False (with compatible=True every symbol additionally passes through modernize_symbol, which is not under contract)']
+ASSUMPTIONS = ['_tokenize_selfies is verified for both values of `compatible`; with compatible=True for ASCII input of at most 3990 characters (the domain of the contract of modernize_symbol), and there only exception freedom and the precondition of the callee are claimed, not that a legacy spelling cannot turn into [nop]']
 EXPLANATION = (
     "BOUNDED stand-in (runtime property contract on the public decoder): for every string of up to N tokens over "
     "covering symbol sets (atoms, branch and ring symbols followed by index symbols, dots, out-of-grammar symbols) "
